@@ -15,7 +15,7 @@ Non-trivial: >= 1 successful item and >= 1 of {error returned, try_recover calle
 
 pub const ASSUMPTIONS: &[&str] = &[
     "specifications are consistent (DynSpec by construction, RichSpec by the macro) — the documented precondition for not panicking",
-    "inputs that could make the iterator allocate > 64 MiB under the chosen size limit are read with a 1 MiB limit instead (documented behaviour: the limit is the user's protection); C17 covers the limit itself",
+    "inputs that could make the iterator allocate > 4 MiB under the chosen size limit are read with a 1 MiB limit instead (documented behaviour: the limit is the user's protection); C17 covers the limit itself",
     "liveness beyond the call cap is not claimed",
 ];
 
